@@ -1,4 +1,10 @@
 
+(** val negb : bool -> bool **)
+
+let negb = function
+| true -> false
+| false -> true
+
 type nat =
 | O
 | S of nat
@@ -16,17 +22,41 @@ let rec app l m =
   | [] -> m
   | a :: l1 -> a :: (app l1 m)
 
-type comparison =
-| Eq
-| Lt
-| Gt
+type uint =
+| Nil
+| D0 of uint
+| D1 of uint
+| D2 of uint
+| D3 of uint
+| D4 of uint
+| D5 of uint
+| D6 of uint
+| D7 of uint
+| D8 of uint
+| D9 of uint
 
-(** val compOpp : comparison -> comparison **)
+type uint0 =
+| Nil0
+| D10 of uint0
+| D11 of uint0
+| D12 of uint0
+| D13 of uint0
+| D14 of uint0
+| D15 of uint0
+| D16 of uint0
+| D17 of uint0
+| D18 of uint0
+| D19 of uint0
+| Da of uint0
+| Db of uint0
+| Dc of uint0
+| Dd of uint0
+| De of uint0
+| Df of uint0
 
-let compOpp = function
-| Eq -> Eq
-| Lt -> Gt
-| Gt -> Lt
+type uint1 =
+| UIntDecimal of uint
+| UIntHexadecimal of uint0
 
 module Coq__1 = struct
  (** val add : nat -> nat -> nat **)
@@ -37,49 +67,182 @@ module Coq__1 = struct
 end
 include Coq__1
 
-(** val nth : nat -> 'a1 list -> 'a1 -> 'a1 **)
+(** val sub : nat -> nat -> nat **)
 
-let rec nth n0 l default =
+let rec sub n0 m =
   match n0 with
-  | O -> (match l with
-          | [] -> default
-          | x :: _ -> x)
-  | S m -> (match l with
-            | [] -> default
-            | _ :: t -> nth m t default)
+  | O -> n0
+  | S k -> (match m with
+            | O -> n0
+            | S l -> sub k l)
 
-(** val rev : 'a1 list -> 'a1 list **)
+(** val tail_add : nat -> nat -> nat **)
 
-let rec rev = function
-| [] -> []
-| x :: l' -> app (rev l') (x :: [])
-
-(** val map : ('a1 -> 'a2) -> 'a1 list -> 'a2 list **)
-
-let rec map f = function
-| [] -> []
-| a :: t -> (f a) :: (map f t)
-
-(** val skipn : nat -> 'a1 list -> 'a1 list **)
-
-let rec skipn n0 l =
+let rec tail_add n0 m =
   match n0 with
-  | O -> l
-  | S n1 -> (match l with
-             | [] -> []
-             | _ :: l0 -> skipn n1 l0)
+  | O -> m
+  | S n1 -> tail_add n1 (S m)
 
-(** val seq : nat -> nat -> nat list **)
+(** val tail_addmul : nat -> nat -> nat -> nat **)
 
-let rec seq start = function
-| O -> []
-| S len0 -> start :: (seq (S start) len0)
+let rec tail_addmul r n0 m =
+  match n0 with
+  | O -> r
+  | S n1 -> tail_addmul (tail_add m r) n1 m
 
-(** val repeat : 'a1 -> nat -> 'a1 list **)
+(** val tail_mul : nat -> nat -> nat **)
 
-let rec repeat x = function
-| O -> []
-| S k -> x :: (repeat x k)
+let tail_mul n0 m =
+  tail_addmul O n0 m
+
+(** val of_uint_acc : uint -> nat -> nat **)
+
+let rec of_uint_acc d acc =
+  match d with
+  | Nil -> acc
+  | D0 d0 ->
+    of_uint_acc d0 (tail_mul (S (S (S (S (S (S (S (S (S (S O)))))))))) acc)
+  | D1 d0 ->
+    of_uint_acc d0 (S
+      (tail_mul (S (S (S (S (S (S (S (S (S (S O)))))))))) acc))
+  | D2 d0 ->
+    of_uint_acc d0 (S (S
+      (tail_mul (S (S (S (S (S (S (S (S (S (S O)))))))))) acc)))
+  | D3 d0 ->
+    of_uint_acc d0 (S (S (S
+      (tail_mul (S (S (S (S (S (S (S (S (S (S O)))))))))) acc))))
+  | D4 d0 ->
+    of_uint_acc d0 (S (S (S (S
+      (tail_mul (S (S (S (S (S (S (S (S (S (S O)))))))))) acc)))))
+  | D5 d0 ->
+    of_uint_acc d0 (S (S (S (S (S
+      (tail_mul (S (S (S (S (S (S (S (S (S (S O)))))))))) acc))))))
+  | D6 d0 ->
+    of_uint_acc d0 (S (S (S (S (S (S
+      (tail_mul (S (S (S (S (S (S (S (S (S (S O)))))))))) acc)))))))
+  | D7 d0 ->
+    of_uint_acc d0 (S (S (S (S (S (S (S
+      (tail_mul (S (S (S (S (S (S (S (S (S (S O)))))))))) acc))))))))
+  | D8 d0 ->
+    of_uint_acc d0 (S (S (S (S (S (S (S (S
+      (tail_mul (S (S (S (S (S (S (S (S (S (S O)))))))))) acc)))))))))
+  | D9 d0 ->
+    of_uint_acc d0 (S (S (S (S (S (S (S (S (S
+      (tail_mul (S (S (S (S (S (S (S (S (S (S O)))))))))) acc))))))))))
+
+(** val of_uint : uint -> nat **)
+
+let of_uint d =
+  of_uint_acc d O
+
+(** val of_hex_uint_acc : uint0 -> nat -> nat **)
+
+let rec of_hex_uint_acc d acc =
+  match d with
+  | Nil0 -> acc
+  | D10 d0 ->
+    of_hex_uint_acc d0
+      (tail_mul (S (S (S (S (S (S (S (S (S (S (S (S (S (S (S (S
+        O)))))))))))))))) acc)
+  | D11 d0 ->
+    of_hex_uint_acc d0 (S
+      (tail_mul (S (S (S (S (S (S (S (S (S (S (S (S (S (S (S (S
+        O)))))))))))))))) acc))
+  | D12 d0 ->
+    of_hex_uint_acc d0 (S (S
+      (tail_mul (S (S (S (S (S (S (S (S (S (S (S (S (S (S (S (S
+        O)))))))))))))))) acc)))
+  | D13 d0 ->
+    of_hex_uint_acc d0 (S (S (S
+      (tail_mul (S (S (S (S (S (S (S (S (S (S (S (S (S (S (S (S
+        O)))))))))))))))) acc))))
+  | D14 d0 ->
+    of_hex_uint_acc d0 (S (S (S (S
+      (tail_mul (S (S (S (S (S (S (S (S (S (S (S (S (S (S (S (S
+        O)))))))))))))))) acc)))))
+  | D15 d0 ->
+    of_hex_uint_acc d0 (S (S (S (S (S
+      (tail_mul (S (S (S (S (S (S (S (S (S (S (S (S (S (S (S (S
+        O)))))))))))))))) acc))))))
+  | D16 d0 ->
+    of_hex_uint_acc d0 (S (S (S (S (S (S
+      (tail_mul (S (S (S (S (S (S (S (S (S (S (S (S (S (S (S (S
+        O)))))))))))))))) acc)))))))
+  | D17 d0 ->
+    of_hex_uint_acc d0 (S (S (S (S (S (S (S
+      (tail_mul (S (S (S (S (S (S (S (S (S (S (S (S (S (S (S (S
+        O)))))))))))))))) acc))))))))
+  | D18 d0 ->
+    of_hex_uint_acc d0 (S (S (S (S (S (S (S (S
+      (tail_mul (S (S (S (S (S (S (S (S (S (S (S (S (S (S (S (S
+        O)))))))))))))))) acc)))))))))
+  | D19 d0 ->
+    of_hex_uint_acc d0 (S (S (S (S (S (S (S (S (S
+      (tail_mul (S (S (S (S (S (S (S (S (S (S (S (S (S (S (S (S
+        O)))))))))))))))) acc))))))))))
+  | Da d0 ->
+    of_hex_uint_acc d0 (S (S (S (S (S (S (S (S (S (S
+      (tail_mul (S (S (S (S (S (S (S (S (S (S (S (S (S (S (S (S
+        O)))))))))))))))) acc)))))))))))
+  | Db d0 ->
+    of_hex_uint_acc d0 (S (S (S (S (S (S (S (S (S (S (S
+      (tail_mul (S (S (S (S (S (S (S (S (S (S (S (S (S (S (S (S
+        O)))))))))))))))) acc))))))))))))
+  | Dc d0 ->
+    of_hex_uint_acc d0 (S (S (S (S (S (S (S (S (S (S (S (S
+      (tail_mul (S (S (S (S (S (S (S (S (S (S (S (S (S (S (S (S
+        O)))))))))))))))) acc)))))))))))))
+  | Dd d0 ->
+    of_hex_uint_acc d0 (S (S (S (S (S (S (S (S (S (S (S (S (S
+      (tail_mul (S (S (S (S (S (S (S (S (S (S (S (S (S (S (S (S
+        O)))))))))))))))) acc))))))))))))))
+  | De d0 ->
+    of_hex_uint_acc d0 (S (S (S (S (S (S (S (S (S (S (S (S (S (S
+      (tail_mul (S (S (S (S (S (S (S (S (S (S (S (S (S (S (S (S
+        O)))))))))))))))) acc)))))))))))))))
+  | Df d0 ->
+    of_hex_uint_acc d0 (S (S (S (S (S (S (S (S (S (S (S (S (S (S (S
+      (tail_mul (S (S (S (S (S (S (S (S (S (S (S (S (S (S (S (S
+        O)))))))))))))))) acc))))))))))))))))
+
+(** val of_hex_uint : uint0 -> nat **)
+
+let of_hex_uint d =
+  of_hex_uint_acc d O
+
+(** val of_num_uint : uint1 -> nat **)
+
+let of_num_uint = function
+| UIntDecimal d0 -> of_uint d0
+| UIntHexadecimal d0 -> of_hex_uint d0
+
+module Nat =
+ struct
+  (** val eqb : nat -> nat -> bool **)
+
+  let rec eqb n0 m =
+    match n0 with
+    | O -> (match m with
+            | O -> true
+            | S _ -> false)
+    | S n' -> (match m with
+               | O -> false
+               | S m' -> eqb n' m')
+
+  (** val leb : nat -> nat -> bool **)
+
+  let rec leb n0 m =
+    match n0 with
+    | O -> true
+    | S n' -> (match m with
+               | O -> false
+               | S m' -> leb n' m')
+
+  (** val ltb : nat -> nat -> bool **)
+
+  let ltb n0 m =
+    leb (S n0) m
+ end
 
 type positive =
 | XI of positive
@@ -143,20 +306,6 @@ module Pos =
        | XO q -> XO (succ q)
        | XH -> XI XH)
 
-  (** val pred_double : positive -> positive **)
-
-  let rec pred_double = function
-  | XI p -> XI (XO p)
-  | XO p -> XI (pred_double p)
-  | XH -> XH
-
-  (** val pred_N : positive -> n **)
-
-  let pred_N = function
-  | XI p -> Npos (XO p)
-  | XO p -> Npos (pred_double p)
-  | XH -> N0
-
   (** val mul : positive -> positive -> positive **)
 
   let rec mul x y =
@@ -164,130 +313,6 @@ module Pos =
     | XI p -> add y (XO (mul p y))
     | XO p -> XO (mul p y)
     | XH -> y
-
-  (** val iter : ('a1 -> 'a1) -> 'a1 -> positive -> 'a1 **)
-
-  let rec iter f x = function
-  | XI n' -> f (iter f (iter f x n') n')
-  | XO n' -> iter f (iter f x n') n'
-  | XH -> f x
-
-  (** val div2 : positive -> positive **)
-
-  let div2 = function
-  | XI p0 -> p0
-  | XO p0 -> p0
-  | XH -> XH
-
-  (** val div2_up : positive -> positive **)
-
-  let div2_up = function
-  | XI p0 -> succ p0
-  | XO p0 -> p0
-  | XH -> XH
-
-  (** val compare_cont : comparison -> positive -> positive -> comparison **)
-
-  let rec compare_cont r x y =
-    match x with
-    | XI p ->
-      (match y with
-       | XI q -> compare_cont r p q
-       | XO q -> compare_cont Gt p q
-       | XH -> Gt)
-    | XO p ->
-      (match y with
-       | XI q -> compare_cont Lt p q
-       | XO q -> compare_cont r p q
-       | XH -> Gt)
-    | XH -> (match y with
-             | XH -> r
-             | _ -> Lt)
-
-  (** val compare : positive -> positive -> comparison **)
-
-  let compare =
-    compare_cont Eq
-
-  (** val eqb : positive -> positive -> bool **)
-
-  let rec eqb p q =
-    match p with
-    | XI p0 -> (match q with
-                | XI q0 -> eqb p0 q0
-                | _ -> false)
-    | XO p0 -> (match q with
-                | XO q0 -> eqb p0 q0
-                | _ -> false)
-    | XH -> (match q with
-             | XH -> true
-             | _ -> false)
-
-  (** val coq_Nsucc_double : n -> n **)
-
-  let coq_Nsucc_double = function
-  | N0 -> Npos XH
-  | Npos p -> Npos (XI p)
-
-  (** val coq_Ndouble : n -> n **)
-
-  let coq_Ndouble = function
-  | N0 -> N0
-  | Npos p -> Npos (XO p)
-
-  (** val coq_lor : positive -> positive -> positive **)
-
-  let rec coq_lor p q =
-    match p with
-    | XI p0 ->
-      (match q with
-       | XI q0 -> XI (coq_lor p0 q0)
-       | XO q0 -> XI (coq_lor p0 q0)
-       | XH -> p)
-    | XO p0 ->
-      (match q with
-       | XI q0 -> XI (coq_lor p0 q0)
-       | XO q0 -> XO (coq_lor p0 q0)
-       | XH -> XI p0)
-    | XH -> (match q with
-             | XO q0 -> XI q0
-             | _ -> q)
-
-  (** val coq_land : positive -> positive -> n **)
-
-  let rec coq_land p q =
-    match p with
-    | XI p0 ->
-      (match q with
-       | XI q0 -> coq_Nsucc_double (coq_land p0 q0)
-       | XO q0 -> coq_Ndouble (coq_land p0 q0)
-       | XH -> Npos XH)
-    | XO p0 ->
-      (match q with
-       | XI q0 -> coq_Ndouble (coq_land p0 q0)
-       | XO q0 -> coq_Ndouble (coq_land p0 q0)
-       | XH -> N0)
-    | XH -> (match q with
-             | XO _ -> N0
-             | _ -> Npos XH)
-
-  (** val ldiff : positive -> positive -> n **)
-
-  let rec ldiff p q =
-    match p with
-    | XI p0 ->
-      (match q with
-       | XI q0 -> coq_Ndouble (ldiff p0 q0)
-       | XO q0 -> coq_Nsucc_double (ldiff p0 q0)
-       | XH -> Npos (XO p0))
-    | XO p0 ->
-      (match q with
-       | XI q0 -> coq_Ndouble (ldiff p0 q0)
-       | XO q0 -> coq_Ndouble (ldiff p0 q0)
-       | XH -> Npos p)
-    | XH -> (match q with
-             | XO _ -> Npos XH
-             | _ -> N0)
 
   (** val iter_op : ('a1 -> 'a1 -> 'a1) -> positive -> 'a1 -> 'a1 **)
 
@@ -311,12 +336,6 @@ module Pos =
 
 module N =
  struct
-  (** val succ_pos : n -> positive **)
-
-  let succ_pos = function
-  | N0 -> XH
-  | Npos p -> Pos.succ p
-
   (** val add : n -> n -> n **)
 
   let add n0 m =
@@ -335,24 +354,6 @@ module N =
                  | N0 -> N0
                  | Npos q -> Npos (Pos.mul p q))
 
-  (** val coq_lor : n -> n -> n **)
-
-  let coq_lor n0 m =
-    match n0 with
-    | N0 -> m
-    | Npos p -> (match m with
-                 | N0 -> n0
-                 | Npos q -> Npos (Pos.coq_lor p q))
-
-  (** val ldiff : n -> n -> n **)
-
-  let ldiff n0 m =
-    match n0 with
-    | N0 -> N0
-    | Npos p -> (match m with
-                 | N0 -> n0
-                 | Npos q -> Pos.ldiff p q)
-
   (** val to_nat : n -> nat **)
 
   let to_nat = function
@@ -366,162 +367,54 @@ module N =
   | S n' -> Npos (Pos.of_succ_nat n')
  end
 
+(** val nth_error : 'a1 list -> nat -> 'a1 option **)
+
+let rec nth_error l = function
+| O -> (match l with
+        | [] -> None
+        | x :: _ -> Some x)
+| S n1 -> (match l with
+           | [] -> None
+           | _ :: l0 -> nth_error l0 n1)
+
+(** val existsb : ('a1 -> bool) -> 'a1 list -> bool **)
+
+let rec existsb f = function
+| [] -> false
+| a :: l0 -> (||) (f a) (existsb f l0)
+
+(** val filter : ('a1 -> bool) -> 'a1 list -> 'a1 list **)
+
+let rec filter f = function
+| [] -> []
+| x :: l0 -> if f x then x :: (filter f l0) else filter f l0
+
+(** val firstn : nat -> 'a1 list -> 'a1 list **)
+
+let rec firstn n0 l =
+  match n0 with
+  | O -> []
+  | S n1 -> (match l with
+             | [] -> []
+             | a :: l0 -> a :: (firstn n1 l0))
+
+(** val skipn : nat -> 'a1 list -> 'a1 list **)
+
+let rec skipn n0 l =
+  match n0 with
+  | O -> l
+  | S n1 -> (match l with
+             | [] -> []
+             | _ :: l0 -> skipn n1 l0)
+
 module Z =
  struct
-  (** val double : z -> z **)
-
-  let double = function
-  | Z0 -> Z0
-  | Zpos p -> Zpos (XO p)
-  | Zneg p -> Zneg (XO p)
-
-  (** val succ_double : z -> z **)
-
-  let succ_double = function
-  | Z0 -> Zpos XH
-  | Zpos p -> Zpos (XI p)
-  | Zneg p -> Zneg (Pos.pred_double p)
-
-  (** val pred_double : z -> z **)
-
-  let pred_double = function
-  | Z0 -> Zneg XH
-  | Zpos p -> Zpos (Pos.pred_double p)
-  | Zneg p -> Zneg (XI p)
-
-  (** val pos_sub : positive -> positive -> z **)
-
-  let rec pos_sub x y =
-    match x with
-    | XI p ->
-      (match y with
-       | XI q -> double (pos_sub p q)
-       | XO q -> succ_double (pos_sub p q)
-       | XH -> Zpos (XO p))
-    | XO p ->
-      (match y with
-       | XI q -> pred_double (pos_sub p q)
-       | XO q -> double (pos_sub p q)
-       | XH -> Zpos (Pos.pred_double p))
-    | XH ->
-      (match y with
-       | XI q -> Zneg (XO q)
-       | XO q -> Zneg (Pos.pred_double q)
-       | XH -> Z0)
-
-  (** val add : z -> z -> z **)
-
-  let add x y =
-    match x with
-    | Z0 -> y
-    | Zpos x' ->
-      (match y with
-       | Z0 -> x
-       | Zpos y' -> Zpos (Pos.add x' y')
-       | Zneg y' -> pos_sub x' y')
-    | Zneg x' ->
-      (match y with
-       | Z0 -> x
-       | Zpos y' -> pos_sub y' x'
-       | Zneg y' -> Zneg (Pos.add x' y'))
-
   (** val opp : z -> z **)
 
   let opp = function
   | Z0 -> Z0
   | Zpos x0 -> Zneg x0
   | Zneg x0 -> Zpos x0
-
-  (** val sub : z -> z -> z **)
-
-  let sub m n0 =
-    add m (opp n0)
-
-  (** val mul : z -> z -> z **)
-
-  let mul x y =
-    match x with
-    | Z0 -> Z0
-    | Zpos x' ->
-      (match y with
-       | Z0 -> Z0
-       | Zpos y' -> Zpos (Pos.mul x' y')
-       | Zneg y' -> Zneg (Pos.mul x' y'))
-    | Zneg x' ->
-      (match y with
-       | Z0 -> Z0
-       | Zpos y' -> Zneg (Pos.mul x' y')
-       | Zneg y' -> Zpos (Pos.mul x' y'))
-
-  (** val pow_pos : z -> positive -> z **)
-
-  let pow_pos z0 =
-    Pos.iter (mul z0) (Zpos XH)
-
-  (** val pow : z -> z -> z **)
-
-  let pow x = function
-  | Z0 -> Zpos XH
-  | Zpos p -> pow_pos x p
-  | Zneg _ -> Z0
-
-  (** val compare : z -> z -> comparison **)
-
-  let compare x y =
-    match x with
-    | Z0 -> (match y with
-             | Z0 -> Eq
-             | Zpos _ -> Lt
-             | Zneg _ -> Gt)
-    | Zpos x' -> (match y with
-                  | Zpos y' -> Pos.compare x' y'
-                  | _ -> Gt)
-    | Zneg x' ->
-      (match y with
-       | Zneg y' -> compOpp (Pos.compare x' y')
-       | _ -> Lt)
-
-  (** val leb : z -> z -> bool **)
-
-  let leb x y =
-    match compare x y with
-    | Gt -> false
-    | _ -> true
-
-  (** val ltb : z -> z -> bool **)
-
-  let ltb x y =
-    match compare x y with
-    | Lt -> true
-    | _ -> false
-
-  (** val geb : z -> z -> bool **)
-
-  let geb x y =
-    match compare x y with
-    | Lt -> false
-    | _ -> true
-
-  (** val gtb : z -> z -> bool **)
-
-  let gtb x y =
-    match compare x y with
-    | Gt -> true
-    | _ -> false
-
-  (** val eqb : z -> z -> bool **)
-
-  let eqb x y =
-    match x with
-    | Z0 -> (match y with
-             | Z0 -> true
-             | _ -> false)
-    | Zpos p -> (match y with
-                 | Zpos q -> Pos.eqb p q
-                 | _ -> false)
-    | Zneg p -> (match y with
-                 | Zneg q -> Pos.eqb p q
-                 | _ -> false)
 
   (** val to_nat : z -> nat **)
 
@@ -546,558 +439,718 @@ module Z =
   let of_N = function
   | N0 -> Z0
   | Npos p -> Zpos p
-
-  (** val pos_div_eucl : positive -> z -> z * z **)
-
-  let rec pos_div_eucl a b =
-    match a with
-    | XI a' ->
-      let (q, r) = pos_div_eucl a' b in
-      let r' = add (mul (Zpos (XO XH)) r) (Zpos XH) in
-      if ltb r' b
-      then ((mul (Zpos (XO XH)) q), r')
-      else ((add (mul (Zpos (XO XH)) q) (Zpos XH)), (sub r' b))
-    | XO a' ->
-      let (q, r) = pos_div_eucl a' b in
-      let r' = mul (Zpos (XO XH)) r in
-      if ltb r' b
-      then ((mul (Zpos (XO XH)) q), r')
-      else ((add (mul (Zpos (XO XH)) q) (Zpos XH)), (sub r' b))
-    | XH -> if leb (Zpos (XO XH)) b then (Z0, (Zpos XH)) else ((Zpos XH), Z0)
-
-  (** val div_eucl : z -> z -> z * z **)
-
-  let div_eucl a b =
-    match a with
-    | Z0 -> (Z0, Z0)
-    | Zpos a' ->
-      (match b with
-       | Z0 -> (Z0, a)
-       | Zpos _ -> pos_div_eucl a' b
-       | Zneg b' ->
-         let (q, r) = pos_div_eucl a' (Zpos b') in
-         (match r with
-          | Z0 -> ((opp q), Z0)
-          | _ -> ((opp (add q (Zpos XH))), (add b r))))
-    | Zneg a' ->
-      (match b with
-       | Z0 -> (Z0, a)
-       | Zpos _ ->
-         let (q, r) = pos_div_eucl a' b in
-         (match r with
-          | Z0 -> ((opp q), Z0)
-          | _ -> ((opp (add q (Zpos XH))), (sub b r)))
-       | Zneg b' -> let (q, r) = pos_div_eucl a' (Zpos b') in (q, (opp r)))
-
-  (** val div : z -> z -> z **)
-
-  let div a b =
-    let (q, _) = div_eucl a b in q
-
-  (** val modulo : z -> z -> z **)
-
-  let modulo a b =
-    let (_, r) = div_eucl a b in r
-
-  (** val div2 : z -> z **)
-
-  let div2 = function
-  | Z0 -> Z0
-  | Zpos p -> (match p with
-               | XH -> Z0
-               | _ -> Zpos (Pos.div2 p))
-  | Zneg p -> Zneg (Pos.div2_up p)
-
-  (** val shiftl : z -> z -> z **)
-
-  let shiftl a = function
-  | Z0 -> a
-  | Zpos p -> Pos.iter (mul (Zpos (XO XH))) a p
-  | Zneg p -> Pos.iter div2 a p
-
-  (** val shiftr : z -> z -> z **)
-
-  let shiftr a n0 =
-    shiftl a (opp n0)
-
-  (** val coq_land : z -> z -> z **)
-
-  let coq_land a b =
-    match a with
-    | Z0 -> Z0
-    | Zpos a0 ->
-      (match b with
-       | Z0 -> Z0
-       | Zpos b0 -> of_N (Pos.coq_land a0 b0)
-       | Zneg b0 -> of_N (N.ldiff (Npos a0) (Pos.pred_N b0)))
-    | Zneg a0 ->
-      (match b with
-       | Z0 -> Z0
-       | Zpos b0 -> of_N (N.ldiff (Npos b0) (Pos.pred_N a0))
-       | Zneg b0 ->
-         Zneg (N.succ_pos (N.coq_lor (Pos.pred_N a0) (Pos.pred_N b0))))
  end
 
-(** val wrap32 : z -> z **)
+(** val usq_page_size : nat **)
 
-let wrap32 z0 =
-  Z.sub
-    (Z.modulo
-      (Z.add z0 (Zpos (XO (XO (XO (XO (XO (XO (XO (XO (XO (XO (XO (XO (XO (XO
-        (XO (XO (XO (XO (XO (XO (XO (XO (XO (XO (XO (XO (XO (XO (XO (XO (XO
-        XH))))))))))))))))))))))))))))))))) (Zpos (XO (XO (XO (XO (XO (XO (XO
-      (XO (XO (XO (XO (XO (XO (XO (XO (XO (XO (XO (XO (XO (XO (XO (XO (XO (XO
-      (XO (XO (XO (XO (XO (XO (XO XH)))))))))))))))))))))))))))))))))) (Zpos
-    (XO (XO (XO (XO (XO (XO (XO (XO (XO (XO (XO (XO (XO (XO (XO (XO (XO (XO
-    (XO (XO (XO (XO (XO (XO (XO (XO (XO (XO (XO (XO (XO
-    XH))))))))))))))))))))))))))))))))
+let usq_page_size =
+  S (S (S (S (S (S (S (S (S (S (S (S (S (S (S (S (S (S (S (S (S (S (S (S (S
+    (S (S (S (S (S (S (S (S (S (S (S (S (S (S (S (S (S (S (S (S (S (S (S (S
+    (S (S (S (S (S (S (S (S (S (S (S (S (S (S (S (S (S (S (S (S (S (S (S (S
+    (S (S (S (S (S (S (S (S (S (S (S (S (S (S (S (S (S (S (S (S (S (S (S (S
+    (S (S (S (S (S (S (S (S (S (S (S (S (S (S (S (S (S (S (S (S (S (S (S (S
+    (S (S (S (S (S (S (S (S (S (S (S (S (S (S (S (S (S (S (S (S (S (S (S (S
+    (S (S (S (S (S (S (S (S (S (S (S (S (S (S (S (S (S (S (S (S (S (S (S (S
+    (S (S (S (S (S (S (S (S (S (S (S (S (S (S (S (S (S (S (S (S (S (S (S (S
+    (S (S (S (S (S (S (S (S (S (S (S (S (S (S (S (S (S (S (S (S (S (S (S (S
+    (S (S (S (S (S (S (S (S (S (S (S (S (S (S (S (S (S (S (S (S (S (S (S (S
+    (S (S (S (S (S (S (S (S (S (S (S (S (S (S (S (S (S (S (S (S (S (S (S (S
+    (S (S (S (S (S (S (S (S (S (S (S (S (S (S (S (S (S (S (S (S (S (S (S (S
+    (S (S (S (S (S (S (S (S (S (S (S (S (S (S (S (S (S (S (S (S (S (S (S (S
+    (S (S (S (S (S (S (S (S (S (S (S (S (S (S (S (S (S (S (S (S (S (S (S (S
+    (S (S (S (S (S (S (S (S (S (S (S (S (S (S (S (S (S (S (S (S (S (S (S (S
+    (S (S (S (S (S (S (S (S (S (S (S (S (S (S (S (S (S (S (S (S (S (S (S (S
+    (S (S (S (S (S (S (S (S (S (S (S (S (S (S (S (S (S (S (S (S (S (S (S (S
+    (S (S (S (S (S (S (S (S (S (S (S (S (S (S (S (S (S (S (S (S (S (S (S (S
+    (S (S (S (S (S (S (S (S (S (S (S (S (S (S (S (S (S (S (S (S (S (S (S (S
+    (S (S (S (S (S (S (S (S (S (S (S (S (S (S (S (S (S (S (S (S (S (S (S (S
+    (S (S (S (S (S (S (S (S (S (S (S (S (S (S (S (S (S (S (S (S (S (S (S (S
+    (S (S (S (S (S (S (S (S (S (S (S (S (S (S (S (S (S (S (S (S (S (S (S (S
+    (S (S (S (S (S (S (S (S (S (S (S (S (S (S (S (S (S (S (S (S (S (S (S (S
+    (S (S (S (S (S (S (S (S (S (S (S (S (S (S (S (S (S (S (S (S (S (S (S (S
+    (S (S (S (S (S (S (S (S (S (S (S (S (S (S (S (S (S (S (S (S (S (S (S (S
+    (S (S (S (S (S (S (S (S (S (S (S (S (S (S (S (S (S (S (S (S (S (S (S (S
+    (S (S (S (S (S (S (S (S (S (S (S (S (S (S (S (S (S (S (S (S (S (S (S (S
+    (S (S (S (S (S (S (S (S (S (S (S (S (S (S (S (S (S (S (S (S (S (S (S (S
+    (S (S (S (S (S (S (S (S (S (S (S (S (S (S (S (S (S (S (S (S (S (S (S (S
+    (S (S (S (S (S (S (S (S (S (S (S (S (S (S (S (S (S (S (S (S (S (S (S (S
+    (S (S (S (S (S (S (S (S (S (S (S (S (S (S (S (S (S (S (S (S (S (S (S (S
+    (S (S (S (S (S (S (S (S (S (S (S (S (S (S (S (S (S (S (S (S (S (S (S (S
+    (S (S (S (S (S (S (S (S (S (S (S (S (S (S (S (S (S (S (S (S (S (S (S (S
+    (S (S (S (S (S (S (S (S (S (S (S (S (S (S (S (S (S (S (S (S (S (S (S (S
+    (S (S (S (S (S (S (S (S (S (S (S (S (S (S (S (S (S (S (S (S (S (S (S (S
+    (S (S (S (S (S (S (S (S (S (S (S (S (S (S (S (S (S (S (S (S (S (S (S (S
+    (S (S (S (S (S (S (S (S (S (S (S (S (S (S (S (S (S (S (S (S (S (S (S (S
+    (S (S (S (S (S (S (S (S (S (S (S (S (S (S (S (S (S (S (S (S (S (S (S (S
+    (S (S (S (S (S (S (S (S (S (S (S (S (S (S (S (S (S (S (S (S (S (S (S (S
+    (S (S (S (S (S (S (S (S (S (S (S (S (S (S (S (S (S (S (S (S (S (S (S (S
+    (S (S (S (S (S (S (S (S (S (S (S (S (S (S (S (S (S (S (S (S (S (S (S (S
+    (S (S (S (S (S (S (S (S (S (S (S (S (S (S (S (S (S (S (S (S (S (S (S (S
+    (S (S (S (S (S (S (S (S (S (S (S (S (S (S
+    O))))))))))))))))))))))))))))))))))))))))))))))))))))))))))))))))))))))))))))))))))))))))))))))))))))))))))))))))))))))))))))))))))))))))))))))))))))))))))))))))))))))))))))))))))))))))))))))))))))))))))))))))))))))))))))))))))))))))))))))))))))))))))))))))))))))))))))))))))))))))))))))))))))))))))))))))))))))))))))))))))))))))))))))))))))))))))))))))))))))))))))))))))))))))))))))))))))))))))))))))))))))))))))))))))))))))))))))))))))))))))))))))))))))))))))))))))))))))))))))))))))))))))))))))))))))))))))))))))))))))))))))))))))))))))))))))))))))))))))))))))))))))))))))))))))))))))))))))))))))))))))))))))))))))))))))))))))))))))))))))))))))))))))))))))))))))))))))))))))))))))))))))))))))))))))))))))))))))))))))))))))))))))))))))))))))))))))))))))))))))))))))))))))))))))))))))))))))))))))))))))))))))))))))))))))))))))))))))))))))))))))))))))))))))))))))))))))))))))))))))))))))))))))))))))))))))))))))))))))))))))))))))))))))))))))))))))))))))))))))))))))))))))))))))))))))))))))))))))))))))))))))))))))))))))))))
 
-(** val tABLE : z list **)
+(** val usq_valid_init : nat **)
 
-let tABLE =
-  (Zpos (XI (XO (XO (XO (XO (XO XH))))))) :: ((Zpos (XO (XI (XO (XO (XO (XO
-    XH))))))) :: ((Zpos (XI (XI (XO (XO (XO (XO XH))))))) :: ((Zpos (XO (XO
-    (XI (XO (XO (XO XH))))))) :: ((Zpos (XI (XO (XI (XO (XO (XO
-    XH))))))) :: ((Zpos (XO (XI (XI (XO (XO (XO XH))))))) :: ((Zpos (XI (XI
-    (XI (XO (XO (XO XH))))))) :: ((Zpos (XO (XO (XO (XI (XO (XO
-    XH))))))) :: ((Zpos (XI (XO (XO (XI (XO (XO XH))))))) :: ((Zpos (XO (XI
-    (XO (XI (XO (XO XH))))))) :: ((Zpos (XI (XI (XO (XI (XO (XO
-    XH))))))) :: ((Zpos (XO (XO (XI (XI (XO (XO XH))))))) :: ((Zpos (XI (XO
-    (XI (XI (XO (XO XH))))))) :: ((Zpos (XO (XI (XI (XI (XO (XO
-    XH))))))) :: ((Zpos (XI (XI (XI (XI (XO (XO XH))))))) :: ((Zpos (XO (XO
-    (XO (XO (XI (XO XH))))))) :: ((Zpos (XI (XO (XO (XO (XI (XO
-    XH))))))) :: ((Zpos (XO (XI (XO (XO (XI (XO XH))))))) :: ((Zpos (XI (XI
-    (XO (XO (XI (XO XH))))))) :: ((Zpos (XO (XO (XI (XO (XI (XO
-    XH))))))) :: ((Zpos (XI (XO (XI (XO (XI (XO XH))))))) :: ((Zpos (XO (XI
-    (XI (XO (XI (XO XH))))))) :: ((Zpos (XI (XI (XI (XO (XI (XO
-    XH))))))) :: ((Zpos (XO (XO (XO (XI (XI (XO XH))))))) :: ((Zpos (XI (XO
-    (XO (XI (XI (XO XH))))))) :: ((Zpos (XO (XI (XO (XI (XI (XO
-    XH))))))) :: ((Zpos (XI (XO (XO (XO (XO (XI XH))))))) :: ((Zpos (XO (XI
-    (XO (XO (XO (XI XH))))))) :: ((Zpos (XI (XI (XO (XO (XO (XI
-    XH))))))) :: ((Zpos (XO (XO (XI (XO (XO (XI XH))))))) :: ((Zpos (XI (XO
-    (XI (XO (XO (XI XH))))))) :: ((Zpos (XO (XI (XI (XO (XO (XI
-    XH))))))) :: ((Zpos (XI (XI (XI (XO (XO (XI XH))))))) :: ((Zpos (XO (XO
-    (XO (XI (XO (XI XH))))))) :: ((Zpos (XI (XO (XO (XI (XO (XI
-    XH))))))) :: ((Zpos (XO (XI (XO (XI (XO (XI XH))))))) :: ((Zpos (XI (XI
-    (XO (XI (XO (XI XH))))))) :: ((Zpos (XO (XO (XI (XI (XO (XI
-    XH))))))) :: ((Zpos (XI (XO (XI (XI (XO (XI XH))))))) :: ((Zpos (XO (XI
-    (XI (XI (XO (XI XH))))))) :: ((Zpos (XI (XI (XI (XI (XO (XI
-    XH))))))) :: ((Zpos (XO (XO (XO (XO (XI (XI XH))))))) :: ((Zpos (XI (XO
-    (XO (XO (XI (XI XH))))))) :: ((Zpos (XO (XI (XO (XO (XI (XI
-    XH))))))) :: ((Zpos (XI (XI (XO (XO (XI (XI XH))))))) :: ((Zpos (XO (XO
-    (XI (XO (XI (XI XH))))))) :: ((Zpos (XI (XO (XI (XO (XI (XI
-    XH))))))) :: ((Zpos (XO (XI (XI (XO (XI (XI XH))))))) :: ((Zpos (XI (XI
-    (XI (XO (XI (XI XH))))))) :: ((Zpos (XO (XO (XO (XI (XI (XI
-    XH))))))) :: ((Zpos (XI (XO (XO (XI (XI (XI XH))))))) :: ((Zpos (XO (XI
-    (XO (XI (XI (XI XH))))))) :: ((Zpos (XO (XO (XO (XO (XI
-    XH)))))) :: ((Zpos (XI (XO (XO (XO (XI XH)))))) :: ((Zpos (XO (XI (XO (XO
-    (XI XH)))))) :: ((Zpos (XI (XI (XO (XO (XI XH)))))) :: ((Zpos (XO (XO (XI
-    (XO (XI XH)))))) :: ((Zpos (XI (XO (XI (XO (XI XH)))))) :: ((Zpos (XO (XI
-    (XI (XO (XI XH)))))) :: ((Zpos (XI (XI (XI (XO (XI XH)))))) :: ((Zpos (XO
-    (XO (XO (XI (XI XH)))))) :: ((Zpos (XI (XO (XO (XI (XI XH)))))) :: ((Zpos
-    (XI (XI (XO (XI (XO XH)))))) :: ((Zpos (XI (XI (XI (XI (XO
-    XH)))))) :: [])))))))))))))))))))))))))))))))))))))))))))))))))))))))))))))))
+let usq_valid_init =
+  O
 
-(** val iNV_TABLE : z list **)
+(** val pcq_empty_init : nat -> nat **)
 
-let iNV_TABLE =
-  (Zneg XH) :: ((Zneg XH) :: ((Zneg XH) :: ((Zneg XH) :: ((Zneg XH) :: ((Zneg
-    XH) :: ((Zneg XH) :: ((Zneg XH) :: ((Zneg XH) :: ((Zneg XH) :: ((Zneg
-    XH) :: ((Zneg XH) :: ((Zneg XH) :: ((Zneg XH) :: ((Zneg XH) :: ((Zneg
-    XH) :: ((Zneg XH) :: ((Zneg XH) :: ((Zneg XH) :: ((Zneg XH) :: ((Zneg
-    XH) :: ((Zneg XH) :: ((Zneg XH) :: ((Zneg XH) :: ((Zneg XH) :: ((Zneg
-    XH) :: ((Zneg XH) :: ((Zneg XH) :: ((Zneg XH) :: ((Zneg XH) :: ((Zneg
-    XH) :: ((Zneg XH) :: ((Zneg XH) :: ((Zneg XH) :: ((Zneg XH) :: ((Zneg
-    XH) :: ((Zneg XH) :: ((Zneg XH) :: ((Zneg XH) :: ((Zneg XH) :: ((Zneg
-    XH) :: ((Zneg XH) :: ((Zneg XH) :: ((Zpos (XO (XI (XI (XI (XI
-    XH)))))) :: ((Zneg XH) :: ((Zneg XH) :: ((Zneg XH) :: ((Zpos (XI (XI (XI
-    (XI (XI XH)))))) :: ((Zpos (XO (XO (XI (XO (XI XH)))))) :: ((Zpos (XI (XO
-    (XI (XO (XI XH)))))) :: ((Zpos (XO (XI (XI (XO (XI XH)))))) :: ((Zpos (XI
-    (XI (XI (XO (XI XH)))))) :: ((Zpos (XO (XO (XO (XI (XI XH)))))) :: ((Zpos
-    (XI (XO (XO (XI (XI XH)))))) :: ((Zpos (XO (XI (XO (XI (XI
-    XH)))))) :: ((Zpos (XI (XI (XO (XI (XI XH)))))) :: ((Zpos (XO (XO (XI (XI
-    (XI XH)))))) :: ((Zpos (XI (XO (XI (XI (XI XH)))))) :: ((Zneg
-    XH) :: ((Zneg XH) :: ((Zneg XH) :: ((Zneg XH) :: ((Zneg XH) :: ((Zneg
-    XH) :: ((Zneg XH) :: (Z0 :: ((Zpos XH) :: ((Zpos (XO XH)) :: ((Zpos (XI
-    XH)) :: ((Zpos (XO (XO XH))) :: ((Zpos (XI (XO XH))) :: ((Zpos (XO (XI
-    XH))) :: ((Zpos (XI (XI XH))) :: ((Zpos (XO (XO (XO XH)))) :: ((Zpos (XI
-    (XO (XO XH)))) :: ((Zpos (XO (XI (XO XH)))) :: ((Zpos (XI (XI (XO
-    XH)))) :: ((Zpos (XO (XO (XI XH)))) :: ((Zpos (XI (XO (XI
-    XH)))) :: ((Zpos (XO (XI (XI XH)))) :: ((Zpos (XI (XI (XI
-    XH)))) :: ((Zpos (XO (XO (XO (XO XH))))) :: ((Zpos (XI (XO (XO (XO
-    XH))))) :: ((Zpos (XO (XI (XO (XO XH))))) :: ((Zpos (XI (XI (XO (XO
-    XH))))) :: ((Zpos (XO (XO (XI (XO XH))))) :: ((Zpos (XI (XO (XI (XO
-    XH))))) :: ((Zpos (XO (XI (XI (XO XH))))) :: ((Zpos (XI (XI (XI (XO
-    XH))))) :: ((Zpos (XO (XO (XO (XI XH))))) :: ((Zpos (XI (XO (XO (XI
-    XH))))) :: ((Zneg XH) :: ((Zneg XH) :: ((Zneg XH) :: ((Zneg XH) :: ((Zneg
-    XH) :: ((Zneg XH) :: ((Zpos (XO (XI (XO (XI XH))))) :: ((Zpos (XI (XI (XO
-    (XI XH))))) :: ((Zpos (XO (XO (XI (XI XH))))) :: ((Zpos (XI (XO (XI (XI
-    XH))))) :: ((Zpos (XO (XI (XI (XI XH))))) :: ((Zpos (XI (XI (XI (XI
-    XH))))) :: ((Zpos (XO (XO (XO (XO (XO XH)))))) :: ((Zpos (XI (XO (XO (XO
-    (XO XH)))))) :: ((Zpos (XO (XI (XO (XO (XO XH)))))) :: ((Zpos (XI (XI (XO
-    (XO (XO XH)))))) :: ((Zpos (XO (XO (XI (XO (XO XH)))))) :: ((Zpos (XI (XO
-    (XI (XO (XO XH)))))) :: ((Zpos (XO (XI (XI (XO (XO XH)))))) :: ((Zpos (XI
-    (XI (XI (XO (XO XH)))))) :: ((Zpos (XO (XO (XO (XI (XO XH)))))) :: ((Zpos
-    (XI (XO (XO (XI (XO XH)))))) :: ((Zpos (XO (XI (XO (XI (XO
-    XH)))))) :: ((Zpos (XI (XI (XO (XI (XO XH)))))) :: ((Zpos (XO (XO (XI (XI
-    (XO XH)))))) :: ((Zpos (XI (XO (XI (XI (XO XH)))))) :: ((Zpos (XO (XI (XI
-    (XI (XO XH)))))) :: ((Zpos (XI (XI (XI (XI (XO XH)))))) :: ((Zpos (XO (XO
-    (XO (XO (XI XH)))))) :: ((Zpos (XI (XO (XO (XO (XI XH)))))) :: ((Zpos (XO
-    (XI (XO (XO (XI XH)))))) :: ((Zpos (XI (XI (XO (XO (XI XH)))))) :: ((Zneg
-    XH) :: ((Zneg XH) :: ((Zneg XH) :: ((Zneg XH) :: ((Zneg XH) :: ((Zneg
-    XH) :: ((Zneg XH) :: ((Zneg XH) :: ((Zneg XH) :: ((Zneg XH) :: ((Zneg
-    XH) :: ((Zneg XH) :: ((Zneg XH) :: ((Zneg XH) :: ((Zneg XH) :: ((Zneg
-    XH) :: ((Zneg XH) :: ((Zneg XH) :: ((Zneg XH) :: ((Zneg XH) :: ((Zneg
-    XH) :: ((Zneg XH) :: ((Zneg XH) :: ((Zneg XH) :: ((Zneg XH) :: ((Zneg
-    XH) :: ((Zneg XH) :: ((Zneg XH) :: ((Zneg XH) :: ((Zneg XH) :: ((Zneg
-    XH) :: ((Zneg XH) :: ((Zneg XH) :: ((Zneg XH) :: ((Zneg XH) :: ((Zneg
-    XH) :: ((Zneg XH) :: ((Zneg XH) :: ((Zneg XH) :: ((Zneg XH) :: ((Zneg
-    XH) :: ((Zneg XH) :: ((Zneg XH) :: ((Zneg XH) :: ((Zneg XH) :: ((Zneg
-    XH) :: ((Zneg XH) :: ((Zneg XH) :: ((Zneg XH) :: ((Zneg XH) :: ((Zneg
-    XH) :: ((Zneg XH) :: ((Zneg XH) :: ((Zneg XH) :: ((Zneg XH) :: ((Zneg
-    XH) :: ((Zneg XH) :: ((Zneg XH) :: ((Zneg XH) :: ((Zneg XH) :: ((Zneg
-    XH) :: ((Zneg XH) :: ((Zneg XH) :: ((Zneg XH) :: ((Zneg XH) :: ((Zneg
-    XH) :: ((Zneg XH) :: ((Zneg XH) :: ((Zneg XH) :: ((Zneg XH) :: ((Zneg
-    XH) :: ((Zneg XH) :: ((Zneg XH) :: ((Zneg XH) :: ((Zneg XH) :: ((Zneg
-    XH) :: ((Zneg XH) :: ((Zneg XH) :: ((Zneg XH) :: ((Zneg XH) :: ((Zneg
-    XH) :: ((Zneg XH) :: ((Zneg XH) :: ((Zneg XH) :: ((Zneg XH) :: ((Zneg
-    XH) :: ((Zneg XH) :: ((Zneg XH) :: ((Zneg XH) :: ((Zneg XH) :: ((Zneg
-    XH) :: ((Zneg XH) :: ((Zneg XH) :: ((Zneg XH) :: ((Zneg XH) :: ((Zneg
-    XH) :: ((Zneg XH) :: ((Zneg XH) :: ((Zneg XH) :: ((Zneg XH) :: ((Zneg
-    XH) :: ((Zneg XH) :: ((Zneg XH) :: ((Zneg XH) :: ((Zneg XH) :: ((Zneg
-    XH) :: ((Zneg XH) :: ((Zneg XH) :: ((Zneg XH) :: ((Zneg XH) :: ((Zneg
-    XH) :: ((Zneg XH) :: ((Zneg XH) :: ((Zneg XH) :: ((Zneg XH) :: ((Zneg
-    XH) :: ((Zneg XH) :: ((Zneg XH) :: ((Zneg XH) :: ((Zneg XH) :: ((Zneg
-    XH) :: ((Zneg XH) :: ((Zneg XH) :: ((Zneg XH) :: ((Zneg XH) :: ((Zneg
-    XH) :: ((Zneg XH) :: ((Zneg XH) :: ((Zneg XH) :: ((Zneg XH) :: ((Zneg
-    XH) :: ((Zneg XH) :: ((Zneg
-    XH) :: [])))))))))))))))))))))))))))))))))))))))))))))))))))))))))))))))))))))))))))))))))))))))))))))))))))))))))))))))))))))))))))))))))))))))))))))))))))))))))))))))))))))))))))))))))))))))))))))))))))))))))))))))))))))))))))))))))))))))))))))))))))))))))))))))
+let pcq_empty_init k =
+  k
 
-(** val enc_val0 : z **)
+(** val pcq_used_init : nat -> nat **)
 
-let enc_val0 =
-  Z0
+let pcq_used_init _ =
+  O
 
-(** val enc_valb0 : z **)
+(** val ring_blocks : nat **)
 
-let enc_valb0 =
-  Zneg (XO (XI XH))
+let ring_blocks =
+  S (S (S O))
 
-(** val enc_shift : z **)
+(** val ring_block_size : nat **)
 
-let enc_shift =
-  Zpos (XO (XO (XO XH)))
+let ring_block_size =
+  of_num_uint (UIntDecimal (D8 (D1 (D9 (D2 Nil)))))
 
-(** val enc_valb_add : z **)
+(** val ring_output_init : nat -> nat **)
 
-let enc_valb_add =
-  Zpos (XO (XO (XO XH)))
+let ring_output_init _ =
+  O
 
-(** val enc_loop_bound : z **)
+(** val ring_trash_init : nat -> nat **)
 
-let enc_loop_bound =
-  Z0
+let ring_trash_init k =
+  k
 
-(** val enc_mask : z **)
+(** val py_pending : nat list -> nat -> bool **)
 
-let enc_mask =
-  Zpos (XI (XI (XI (XI (XI XH)))))
+let py_pending pend tid =
+  existsb (Nat.eqb tid) pend
 
-(** val enc_valb_sub : z **)
+(** val py_step :
+    ('a1 -> nat -> 'a1 option) -> ('a1 -> nat -> bool) -> ('a1 * nat list) ->
+    nat -> ('a1 * nat list) option **)
 
-let enc_valb_sub =
-  Zpos (XO (XI XH))
+let py_step step is_post sp tid =
+  let (s, pend) = sp in
+  if py_pending pend tid
+  then Some (s, (filter (fun t -> negb (Nat.eqb tid t)) pend))
+  else (match step s tid with
+        | Some s' -> Some (s', (if is_post s tid then tid :: pend else pend))
+        | None -> None)
 
-(** val enc_tail_bound : z **)
+(** val upd : (nat -> 'a1) -> nat -> 'a1 -> nat -> 'a1 **)
 
-let enc_tail_bound =
-  Zneg (XO (XI XH))
+let upd f k v x =
+  if Nat.eqb x k then v else f x
 
-(** val enc_tail_shl : z **)
+type upage =
+| UUnalloc
+| UFreed
+| ULive of (nat -> z option) * nat option
 
-let enc_tail_shl =
-  Zpos (XO (XO (XO XH)))
+type uerr =
+| UUseAfterFree
+| UNullNext
+| UReadUnwritten
 
-(** val enc_tail_add : z **)
+type uppc =
+| UPLink
+| UPWrite
+| UPPost
 
-let enc_tail_add =
-  Zpos (XO (XO (XO XH)))
+type ucpc =
+| UCWait
+| UCSwitch
+| UCRead
 
-(** val enc_tail_mask : z **)
+type ustate = { u_valid : nat; u_heap : (nat -> upage); u_nalloc : nat;
+                u_fill : nat; u_fidx : nat; u_rd : nat; u_ridx : nat;
+                u_ppc : uppc; u_cpc : ucpc; u_todo : z list; u_want : 
+                nat; u_got : z list; u_err : uerr option }
 
-let enc_tail_mask =
-  Zpos (XI (XI (XI (XI (XI XH)))))
+(** val uempty_entries : nat -> z option **)
 
-(** val enc_pad_mod : z **)
+let uempty_entries _ =
+  None
 
-let enc_pad_mod =
-  Zpos (XO (XO XH))
+(** val usq_init : nat -> z list -> nat -> ustate **)
 
-(** val pad_char : z **)
+let usq_init valid0 items want =
+  { u_valid = valid0; u_heap =
+    (upd (fun _ -> UUnalloc) O (ULive (uempty_entries, None))); u_nalloc = (S
+    O); u_fill = O; u_fidx = O; u_rd = O; u_ridx = O; u_ppc = UPLink; u_cpc =
+    UCWait; u_todo = items; u_want = want; u_got = []; u_err = None }
 
-let pad_char =
-  Zpos (XI (XO (XI (XI (XI XH)))))
+(** val u_fail : ustate -> uerr -> ustate **)
 
-(** val dec_val0 : z **)
+let u_fail s e =
+  { u_valid = s.u_valid; u_heap = s.u_heap; u_nalloc = s.u_nalloc; u_fill =
+    s.u_fill; u_fidx = s.u_fidx; u_rd = s.u_rd; u_ridx = s.u_ridx; u_ppc =
+    s.u_ppc; u_cpc = s.u_cpc; u_todo = s.u_todo; u_want = s.u_want; u_got =
+    s.u_got; u_err = (Some e) }
 
-let dec_val0 =
-  Z0
+(** val usq_step_prod : nat -> ustate -> ustate option **)
 
-(** val dec_valb0 : z **)
+let usq_step_prod p s =
+  match s.u_todo with
+  | [] -> None
+  | v :: rest ->
+    (match s.u_ppc with
+     | UPLink ->
+       if Nat.eqb s.u_fidx p
+       then (match s.u_heap s.u_fill with
+             | ULive (e, _) ->
+               let n0 = s.u_nalloc in
+               Some { u_valid = s.u_valid; u_heap =
+               (upd (upd s.u_heap n0 (ULive (uempty_entries, None))) s.u_fill
+                 (ULive (e, (Some n0)))); u_nalloc = (S n0); u_fill = n0;
+               u_fidx = O; u_rd = s.u_rd; u_ridx = s.u_ridx; u_ppc = UPWrite;
+               u_cpc = s.u_cpc; u_todo = s.u_todo; u_want = s.u_want; u_got =
+               s.u_got; u_err = None }
+             | _ -> Some (u_fail s UUseAfterFree))
+       else Some { u_valid = s.u_valid; u_heap = s.u_heap; u_nalloc =
+              s.u_nalloc; u_fill = s.u_fill; u_fidx = s.u_fidx; u_rd =
+              s.u_rd; u_ridx = s.u_ridx; u_ppc = UPWrite; u_cpc = s.u_cpc;
+              u_todo = s.u_todo; u_want = s.u_want; u_got = s.u_got; u_err =
+              None }
+     | UPWrite ->
+       (match s.u_heap s.u_fill with
+        | ULive (e, nx) ->
+          Some { u_valid = s.u_valid; u_heap =
+            (upd s.u_heap s.u_fill (ULive ((upd e s.u_fidx (Some v)), nx)));
+            u_nalloc = s.u_nalloc; u_fill = s.u_fill; u_fidx = (S s.u_fidx);
+            u_rd = s.u_rd; u_ridx = s.u_ridx; u_ppc = UPPost; u_cpc =
+            s.u_cpc; u_todo = s.u_todo; u_want = s.u_want; u_got = s.u_got;
+            u_err = None }
+        | _ -> Some (u_fail s UUseAfterFree))
+     | UPPost ->
+       Some { u_valid = (S s.u_valid); u_heap = s.u_heap; u_nalloc =
+         s.u_nalloc; u_fill = s.u_fill; u_fidx = s.u_fidx; u_rd = s.u_rd;
+         u_ridx = s.u_ridx; u_ppc = UPLink; u_cpc = s.u_cpc; u_todo = rest;
+         u_want = s.u_want; u_got = s.u_got; u_err = None })
 
-let dec_valb0 =
-  Zneg (XO (XO (XO XH)))
+(** val usq_step_cons : nat -> ustate -> ustate option **)
 
-(** val dec_pad_char : z **)
+let usq_step_cons p s =
+  match s.u_want with
+  | O -> None
+  | S w ->
+    (match s.u_cpc with
+     | UCWait ->
+       (match s.u_valid with
+        | O -> None
+        | S v ->
+          Some { u_valid = v; u_heap = s.u_heap; u_nalloc = s.u_nalloc;
+            u_fill = s.u_fill; u_fidx = s.u_fidx; u_rd = s.u_rd; u_ridx =
+            s.u_ridx; u_ppc = s.u_ppc; u_cpc = UCSwitch; u_todo = s.u_todo;
+            u_want = s.u_want; u_got = s.u_got; u_err = None })
+     | UCSwitch ->
+       if Nat.eqb s.u_ridx p
+       then (match s.u_heap s.u_rd with
+             | ULive (_, next) ->
+               (match next with
+                | Some n0 ->
+                  Some { u_valid = s.u_valid; u_heap =
+                    (upd s.u_heap s.u_rd UFreed); u_nalloc = s.u_nalloc;
+                    u_fill = s.u_fill; u_fidx = s.u_fidx; u_rd = n0; u_ridx =
+                    O; u_ppc = s.u_ppc; u_cpc = UCRead; u_todo = s.u_todo;
+                    u_want = s.u_want; u_got = s.u_got; u_err = None }
+                | None -> Some (u_fail s UNullNext))
+             | _ -> Some (u_fail s UUseAfterFree))
+       else Some { u_valid = s.u_valid; u_heap = s.u_heap; u_nalloc =
+              s.u_nalloc; u_fill = s.u_fill; u_fidx = s.u_fidx; u_rd =
+              s.u_rd; u_ridx = s.u_ridx; u_ppc = s.u_ppc; u_cpc = UCRead;
+              u_todo = s.u_todo; u_want = s.u_want; u_got = s.u_got; u_err =
+              None }
+     | UCRead ->
+       (match s.u_heap s.u_rd with
+        | ULive (e, _) ->
+          (match e s.u_ridx with
+           | Some v ->
+             Some { u_valid = s.u_valid; u_heap = s.u_heap; u_nalloc =
+               s.u_nalloc; u_fill = s.u_fill; u_fidx = s.u_fidx; u_rd =
+               s.u_rd; u_ridx = (S s.u_ridx); u_ppc = s.u_ppc; u_cpc =
+               UCWait; u_todo = s.u_todo; u_want = w; u_got = (v :: s.u_got);
+               u_err = None }
+           | None -> Some (u_fail s UReadUnwritten))
+        | _ -> Some (u_fail s UUseAfterFree)))
 
-let dec_pad_char =
-  Zpos (XI (XO (XI (XI (XI XH)))))
+(** val usq_step : nat -> ustate -> nat -> ustate option **)
 
-(** val dec_reject : z **)
+let usq_step p s tid =
+  match s.u_err with
+  | Some _ -> None
+  | None ->
+    (match tid with
+     | O -> usq_step_prod p s
+     | S n0 -> (match n0 with
+                | O -> usq_step_cons p s
+                | S _ -> None))
 
-let dec_reject =
+(** val usq_tag : ustate -> nat -> nat **)
+
+let usq_tag s = function
+| O -> (match s.u_ppc with
+        | UPLink -> O
+        | UPWrite -> S O
+        | UPPost -> S (S O))
+| S _ ->
+  (match s.u_cpc with
+   | UCWait -> S (S (S O))
+   | UCSwitch -> S (S (S (S O)))
+   | UCRead -> S (S (S (S (S O)))))
+
+(** val usq_finished : ustate -> nat -> bool **)
+
+let usq_finished s = function
+| O -> (match s.u_todo with
+        | [] -> true
+        | _ :: _ -> false)
+| S n0 -> (match n0 with
+           | O -> Nat.eqb s.u_want O
+           | S _ -> true)
+
+type qppc =
+| QPWait
+| QPLock
+| QPWrite
+| QPUnlock
+| QPPost
+
+type qcpc =
+| QCWait
+| QCLock
+| QCRead
+| QCUnlock
+| QCPost
+
+type qthread =
+| QProd of qppc * z list
+| QCons of qcpc * nat * z list
+
+type qstate = { q_empty : nat; q_used : nat; q_slots : (nat -> z);
+                q_pat : nat; q_cat : nat; q_pmx : bool; q_cmx : bool;
+                q_threads : qthread list }
+
+(** val list_upd : 'a1 list -> nat -> 'a1 -> 'a1 list **)
+
+let rec list_upd l i x =
+  match l with
+  | [] -> []
+  | a :: r -> (match i with
+               | O -> x :: r
+               | S j -> a :: (list_upd r j x))
+
+(** val q_default : z **)
+
+let q_default =
   Zneg XH
 
-(** val dec_shift : z **)
+(** val pcq_init : nat -> nat -> qthread list -> qstate **)
 
-let dec_shift =
-  Zpos (XO (XI XH))
+let pcq_init empty0 used0 threads =
+  { q_empty = empty0; q_used = used0; q_slots = (fun _ -> q_default); q_pat =
+    O; q_cat = O; q_pmx = false; q_cmx = false; q_threads = threads }
 
-(** val dec_valb_add : z **)
+(** val q_next : nat -> nat -> nat **)
 
-let dec_valb_add =
-  Zpos (XO (XI XH))
+let q_next n0 i =
+  if Nat.eqb (S i) n0 then O else S i
 
-(** val dec_out_bound : z **)
+(** val q_set_thread : qstate -> nat -> qthread -> qthread list **)
 
-let dec_out_bound =
-  Z0
+let q_set_thread s i t =
+  list_upd s.q_threads i t
 
-(** val dec_mask : z **)
+(** val pcq_step : nat -> qstate -> nat -> qstate option **)
 
-let dec_mask =
-  Zpos (XI (XI (XI (XI (XI (XI (XI XH)))))))
-
-(** val dec_valb_sub : z **)
-
-let dec_valb_sub =
-  Zpos (XO (XO (XO XH)))
-
-(** val tbl : z -> z **)
-
-let tbl i =
-  nth (Z.to_nat i) tABLE Z0
-
-(** val inv : z -> z **)
-
-let inv c =
-  nth (Z.to_nat c) iNV_TABLE Z0
-
-(** val sel : z -> z -> z -> z **)
-
-let sel val0 valb mask =
-  Z.coq_land (Z.shiftr val0 valb) mask
-
-(** val enc_drain : nat -> z -> z -> (z list * z) option **)
-
-let rec enc_drain fuel val0 valb =
-  if Z.geb valb enc_loop_bound
-  then (match fuel with
+let pcq_step n0 s i =
+  match nth_error s.q_threads i with
+  | Some q ->
+    (match q with
+     | QProd (pc, todo) ->
+       (match todo with
+        | [] -> None
+        | v :: rest ->
+          (match pc with
+           | QPWait ->
+             (match s.q_empty with
+              | O -> None
+              | S e ->
+                Some { q_empty = e; q_used = s.q_used; q_slots = s.q_slots;
+                  q_pat = s.q_pat; q_cat = s.q_cat; q_pmx = s.q_pmx; q_cmx =
+                  s.q_cmx; q_threads =
+                  (q_set_thread s i (QProd (QPLock, todo))) })
+           | QPLock ->
+             if s.q_pmx
+             then None
+             else Some { q_empty = s.q_empty; q_used = s.q_used; q_slots =
+                    s.q_slots; q_pat = s.q_pat; q_cat = s.q_cat; q_pmx =
+                    true; q_cmx = s.q_cmx; q_threads =
+                    (q_set_thread s i (QProd (QPWrite, todo))) }
+           | QPWrite ->
+             Some { q_empty = s.q_empty; q_used = s.q_used; q_slots =
+               (upd s.q_slots s.q_pat v); q_pat = (q_next n0 s.q_pat);
+               q_cat = s.q_cat; q_pmx = s.q_pmx; q_cmx = s.q_cmx; q_threads =
+               (q_set_thread s i (QProd (QPUnlock, todo))) }
+           | QPUnlock ->
+             Some { q_empty = s.q_empty; q_used = s.q_used; q_slots =
+               s.q_slots; q_pat = s.q_pat; q_cat = s.q_cat; q_pmx = false;
+               q_cmx = s.q_cmx; q_threads =
+               (q_set_thread s i (QProd (QPPost, todo))) }
+           | QPPost ->
+             Some { q_empty = s.q_empty; q_used = (S s.q_used); q_slots =
+               s.q_slots; q_pat = s.q_pat; q_cat = s.q_cat; q_pmx = s.q_pmx;
+               q_cmx = s.q_cmx; q_threads =
+               (q_set_thread s i (QProd (QPWait, rest))) }))
+     | QCons (pc, want, got) ->
+       (match want with
         | O -> None
-        | S f ->
-          (match enc_drain f val0 (Z.sub valb enc_valb_sub) with
-           | Some p ->
-             let (o, vb) = p in
-             Some (((tbl (sel val0 valb enc_mask)) :: o), vb)
-           | None -> None))
-  else Some ([], valb)
-
-(** val drain_fuel : nat **)
-
-let drain_fuel =
-  S (S (S (S (S (S (S (S O)))))))
-
-(** val enc_bytes : z list -> z -> z -> ((z list * z) * z) option **)
-
-let rec enc_bytes bs val0 valb =
-  match bs with
-  | [] -> Some (([], val0), valb)
-  | c :: r ->
-    let val' = wrap32 (Z.add (Z.mul val0 (Z.pow (Zpos (XO XH)) enc_shift)) c)
-    in
-    (match enc_drain drain_fuel val' (Z.add valb enc_valb_add) with
-     | Some p ->
-       let (o, vb) = p in
-       (match enc_bytes r val' vb with
-        | Some p0 ->
-          let (p1, b) = p0 in let (o2, v) = p1 in Some (((app o o2), v), b)
-        | None -> None)
-     | None -> None)
-
-(** val enc_pad : nat -> z list **)
-
-let enc_pad n0 =
-  repeat pad_char
-    (Z.to_nat
-      (Z.modulo (Z.sub enc_pad_mod (Z.modulo (Z.of_nat n0) enc_pad_mod))
-        enc_pad_mod))
-
-(** val base64_encode : z list -> z list option **)
-
-let base64_encode bs =
-  match enc_bytes bs enc_val0 enc_valb0 with
-  | Some p ->
-    let (p0, valb) = p in
-    let (o, val0) = p0 in
-    let o' =
-      if Z.gtb valb enc_tail_bound
-      then app o
-             ((tbl
-                (sel
-                  (wrap32 (Z.mul val0 (Z.pow (Zpos (XO XH)) enc_tail_shl)))
-                  (Z.add valb enc_tail_add) enc_tail_mask)) :: [])
-      else o
-    in
-    Some (app o' (enc_pad (length o')))
+        | S w ->
+          (match pc with
+           | QCWait ->
+             (match s.q_used with
+              | O -> None
+              | S u ->
+                Some { q_empty = s.q_empty; q_used = u; q_slots = s.q_slots;
+                  q_pat = s.q_pat; q_cat = s.q_cat; q_pmx = s.q_pmx; q_cmx =
+                  s.q_cmx; q_threads =
+                  (q_set_thread s i (QCons (QCLock, want, got))) })
+           | QCLock ->
+             if s.q_cmx
+             then None
+             else Some { q_empty = s.q_empty; q_used = s.q_used; q_slots =
+                    s.q_slots; q_pat = s.q_pat; q_cat = s.q_cat; q_pmx =
+                    s.q_pmx; q_cmx = true; q_threads =
+                    (q_set_thread s i (QCons (QCRead, want, got))) }
+           | QCRead ->
+             Some { q_empty = s.q_empty; q_used = s.q_used; q_slots =
+               s.q_slots; q_pat = s.q_pat; q_cat = (q_next n0 s.q_cat);
+               q_pmx = s.q_pmx; q_cmx = s.q_cmx; q_threads =
+               (q_set_thread s i (QCons (QCUnlock, want,
+                 ((s.q_slots s.q_cat) :: got)))) }
+           | QCUnlock ->
+             Some { q_empty = s.q_empty; q_used = s.q_used; q_slots =
+               s.q_slots; q_pat = s.q_pat; q_cat = s.q_cat; q_pmx = s.q_pmx;
+               q_cmx = false; q_threads =
+               (q_set_thread s i (QCons (QCPost, want, got))) }
+           | QCPost ->
+             Some { q_empty = (S s.q_empty); q_used = s.q_used; q_slots =
+               s.q_slots; q_pat = s.q_pat; q_cat = s.q_cat; q_pmx = s.q_pmx;
+               q_cmx = s.q_cmx; q_threads =
+               (q_set_thread s i (QCons (QCWait, w, got))) })))
   | None -> None
 
-type dres =
-| DOk of z list
-| DBadChar of z
-| DLengthError
+(** val pcq_tag : qstate -> nat -> nat **)
 
-(** val count_padding_rev : z list -> nat **)
+let pcq_tag s i =
+  match nth_error s.q_threads i with
+  | Some q ->
+    (match q with
+     | QProd (pc, _) ->
+       (match pc with
+        | QPWait -> O
+        | QPLock -> S O
+        | QPWrite -> S (S O)
+        | QPUnlock -> S (S (S O))
+        | QPPost -> S (S (S (S O))))
+     | QCons (pc, _, _) ->
+       (match pc with
+        | QCWait -> S (S (S (S (S O))))
+        | QCLock -> S (S (S (S (S (S O)))))
+        | QCRead -> S (S (S (S (S (S (S O))))))
+        | QCUnlock -> S (S (S (S (S (S (S (S O)))))))
+        | QCPost -> S (S (S (S (S (S (S (S (S O))))))))))
+  | None ->
+    S (S (S (S (S (S (S (S (S (S (S (S (S (S (S (S (S (S (S (S (S (S (S (S (S
+      (S (S (S (S (S (S (S (S (S (S (S (S (S (S (S (S (S (S (S (S (S (S (S (S
+      (S (S (S (S (S (S (S (S (S (S (S (S (S (S (S (S (S (S (S (S (S (S (S (S
+      (S (S (S (S (S (S (S (S (S (S (S (S (S (S (S (S (S (S (S (S (S (S (S (S
+      (S (S
+      O))))))))))))))))))))))))))))))))))))))))))))))))))))))))))))))))))))))))))))))))))))))))))))))))))
 
-let rec count_padding_rev = function
-| [] -> O
-| c :: r' ->
-  if Z.eqb c (Zpos (XI (XO (XI (XI (XI XH))))))
-  then S (count_padding_rev r')
-  else O
+(** val qthread_finished : qthread -> bool **)
 
-(** val count_padding : z list -> nat **)
+let qthread_finished = function
+| QProd (_, todo) -> (match todo with
+                      | [] -> true
+                      | _ :: _ -> false)
+| QCons (_, want, _) -> (match want with
+                         | O -> true
+                         | S _ -> false)
 
-let count_padding cs =
-  count_padding_rev (rev cs)
+(** val pcq_finished : qstate -> nat -> bool **)
 
-(** val dec_loop : z list -> z -> z -> dres **)
+let pcq_finished s i =
+  match nth_error s.q_threads i with
+  | Some t -> qthread_finished t
+  | None -> true
 
-let rec dec_loop cs val0 valb =
-  match cs with
-  | [] -> DOk []
-  | c :: r ->
-    if Z.eqb c dec_pad_char
-    then DOk []
-    else if Z.eqb (inv c) dec_reject
-         then DBadChar c
-         else let val' =
-                wrap32
-                  (Z.add (Z.mul val0 (Z.pow (Zpos (XO XH)) dec_shift))
-                    (inv c))
-              in
-              let valb' = Z.add valb dec_valb_add in
-              if Z.geb valb' dec_out_bound
-              then (match dec_loop r val' (Z.sub valb' dec_valb_sub) with
-                    | DOk o -> DOk ((sel val' valb' dec_mask) :: o)
-                    | x -> x)
-              else dec_loop r val' valb'
+type rppc =
+| RPCtorWait
+| RPSpawn
+| RPFill
+| RPRest
+| RPSpillPost of bool
+| RPSpillWait of bool
+| RPPoisonPost
+| RPPoisonWait
+| RPJoin
+| RPLeasePost
+| RPDone
 
-(** val base64_decode : z list -> dres **)
+type rcpc =
+| RCNotStarted
+| RCBegin
+| RCWait
+| RCWrite
+| RCPostTrash
+| RCExitPost
+| RCFlush
+| RCEnd
+| RCDone
 
-let base64_decode cs =
-  if Z.ltb
-       (Z.div (Z.mul (Z.of_nat (length cs)) (Zpos (XI XH))) (Zpos (XO (XO
-         XH)))) (Z.of_nat (count_padding cs))
-  then DLengthError
-  else dec_loop cs dec_val0 dec_valb0
+type rstate = { r_out : nat; r_trash : nat; r_data : (nat -> z list);
+                r_size : (nat -> nat); r_pi : nat; r_ci : nat; r_cur : 
+                nat; r_ppc : rppc; r_cpc : rcpc; r_prog : z list list;
+                r_pend : z list; r_file : z list; r_wsizes : nat list;
+                r_flushes : nat }
 
-(** val b64_alphabet : z list **)
+(** val ring_init : nat -> nat -> nat -> z list list -> rstate **)
 
-let b64_alphabet =
-  map Z.of_nat
-    (app
-      (seq (S (S (S (S (S (S (S (S (S (S (S (S (S (S (S (S (S (S (S (S (S (S
-        (S (S (S (S (S (S (S (S (S (S (S (S (S (S (S (S (S (S (S (S (S (S (S
-        (S (S (S (S (S (S (S (S (S (S (S (S (S (S (S (S (S (S (S (S
-        O))))))))))))))))))))))))))))))))))))))))))))))))))))))))))))))))) (S
-        (S (S (S (S (S (S (S (S (S (S (S (S (S (S (S (S (S (S (S (S (S (S (S
-        (S (S O)))))))))))))))))))))))))))
-      (app
-        (seq (S (S (S (S (S (S (S (S (S (S (S (S (S (S (S (S (S (S (S (S (S
-          (S (S (S (S (S (S (S (S (S (S (S (S (S (S (S (S (S (S (S (S (S (S
-          (S (S (S (S (S (S (S (S (S (S (S (S (S (S (S (S (S (S (S (S (S (S
-          (S (S (S (S (S (S (S (S (S (S (S (S (S (S (S (S (S (S (S (S (S (S
-          (S (S (S (S (S (S (S (S (S (S
-          O)))))))))))))))))))))))))))))))))))))))))))))))))))))))))))))))))))))))))))))))))))))))))))))))))
-          (S (S (S (S (S (S (S (S (S (S (S (S (S (S (S (S (S (S (S (S (S (S
-          (S (S (S (S O)))))))))))))))))))))))))))
-        (app
-          (seq (S (S (S (S (S (S (S (S (S (S (S (S (S (S (S (S (S (S (S (S (S
-            (S (S (S (S (S (S (S (S (S (S (S (S (S (S (S (S (S (S (S (S (S (S
-            (S (S (S (S (S O))))))))))))))))))))))))))))))))))))))))))))))))
-            (S (S (S (S (S (S (S (S (S (S O))))))))))) ((S (S (S (S (S (S (S
-          (S (S (S (S (S (S (S (S (S (S (S (S (S (S (S (S (S (S (S (S (S (S
-          (S (S (S (S (S (S (S (S (S (S (S (S (S (S
-          O))))))))))))))))))))))))))))))))))))))))))) :: ((S (S (S (S (S (S
-          (S (S (S (S (S (S (S (S (S (S (S (S (S (S (S (S (S (S (S (S (S (S
-          (S (S (S (S (S (S (S (S (S (S (S (S (S (S (S (S (S (S (S
-          O))))))))))))))))))))))))))))))))))))))))))))))) :: [])))))
+let ring_init out0 trash0 bsize prog =
+  { r_out = out0; r_trash = trash0; r_data = (fun _ -> []); r_size =
+    (fun _ -> bsize); r_pi = O; r_ci = O; r_cur = O; r_ppc = RPCtorWait;
+    r_cpc = RCNotStarted; r_prog = prog; r_pend = []; r_file = []; r_wsizes =
+    []; r_flushes = O }
 
-(** val alpha : z -> z **)
+(** val r_next : nat -> nat -> nat **)
 
-let alpha i =
-  nth (Z.to_nat i) b64_alphabet Z0
+let r_next k i =
+  if Nat.eqb (S i) k then O else S i
 
-(** val rfc4648 : z list -> z list **)
+(** val r_loop_test : nat -> nat -> z list -> rppc **)
 
-let rec rfc4648 = function
-| [] -> []
-| b0 :: l ->
-  (match l with
-   | [] ->
-     (alpha (Z.div b0 (Zpos (XO (XO XH))))) :: ((alpha
-                                                  (Z.mul
-                                                    (Z.modulo b0 (Zpos (XO
-                                                      (XO XH)))) (Zpos (XO
-                                                    (XO (XO (XO XH))))))) :: ((Zpos
-       (XI (XO (XI (XI (XI XH)))))) :: ((Zpos (XI (XO (XI (XI (XI
-       XH)))))) :: [])))
-   | b1 :: l0 ->
-     (match l0 with
-      | [] ->
-        (alpha (Z.div b0 (Zpos (XO (XO XH))))) :: ((alpha
-                                                     (Z.add
-                                                       (Z.mul
-                                                         (Z.modulo b0 (Zpos
-                                                           (XO (XO XH))))
-                                                         (Zpos (XO (XO (XO
-                                                         (XO XH))))))
-                                                       (Z.div b1 (Zpos (XO
-                                                         (XO (XO (XO XH)))))))) :: (
-          (alpha
-            (Z.mul (Z.modulo b1 (Zpos (XO (XO (XO (XO XH)))))) (Zpos (XO (XO
-              XH))))) :: ((Zpos (XI (XO (XI (XI (XI XH)))))) :: [])))
-      | b2 :: r ->
-        app
-          ((alpha (Z.div b0 (Zpos (XO (XO XH))))) :: ((alpha
-                                                        (Z.add
-                                                          (Z.mul
-                                                            (Z.modulo b0
-                                                              (Zpos (XO (XO
-                                                              XH)))) (Zpos
-                                                            (XO (XO (XO (XO
-                                                            XH))))))
-                                                          (Z.div b1 (Zpos (XO
-                                                            (XO (XO (XO
-                                                            XH)))))))) :: (
-          (alpha
-            (Z.add
-              (Z.mul (Z.modulo b1 (Zpos (XO (XO (XO (XO XH)))))) (Zpos (XO
-                (XO XH)))) (Z.div b2 (Zpos (XO (XO (XO (XO (XO (XO XH)))))))))) :: (
-          (alpha (Z.modulo b2 (Zpos (XO (XO (XO (XO (XO (XO XH))))))))) :: []))))
-          (rfc4648 r)))
+let r_loop_test b cur pend =
+  if Nat.ltb b (add cur (length pend)) then RPFill else RPRest
 
-(** val strip_padding : z list -> z list **)
+(** val r_set_p :
+    rstate -> (nat -> z list) -> (nat -> nat) -> nat -> nat -> rppc -> z list
+    list -> z list -> rstate **)
 
-let strip_padding cs =
-  rev (skipn (count_padding cs) (rev cs))
+let r_set_p s data size pi cur pc prog pend =
+  { r_out = s.r_out; r_trash = s.r_trash; r_data = data; r_size = size;
+    r_pi = pi; r_ci = s.r_ci; r_cur = cur; r_ppc = pc; r_cpc = s.r_cpc;
+    r_prog = prog; r_pend = pend; r_file = s.r_file; r_wsizes = s.r_wsizes;
+    r_flushes = s.r_flushes }
+
+(** val r_dtor : nat -> rstate -> (nat -> z list) -> nat -> rstate **)
+
+let r_dtor k s data cur =
+  if Nat.eqb cur O
+  then r_set_p s data (upd s.r_size s.r_pi O) (r_next k s.r_pi) cur
+         RPPoisonPost [] []
+  else r_set_p s data (upd s.r_size s.r_pi cur) (r_next k s.r_pi) cur
+         (RPSpillPost true) [] []
+
+(** val r_next_write :
+    nat -> nat -> rstate -> (nat -> z list) -> nat -> rstate **)
+
+let r_next_write k b s data cur =
+  match s.r_prog with
+  | [] -> r_dtor k s data cur
+  | w :: rest ->
+    r_set_p s data s.r_size s.r_pi cur (r_loop_test b cur w) rest w
+
+(** val r_set_sem : rstate -> nat -> nat -> rppc -> rstate **)
+
+let r_set_sem s out trash pc =
+  { r_out = out; r_trash = trash; r_data = s.r_data; r_size = s.r_size;
+    r_pi = s.r_pi; r_ci = s.r_ci; r_cur = s.r_cur; r_ppc = pc; r_cpc =
+    s.r_cpc; r_prog = s.r_prog; r_pend = s.r_pend; r_file = s.r_file;
+    r_wsizes = s.r_wsizes; r_flushes = s.r_flushes }
+
+(** val ring_step_owner : nat -> nat -> rstate -> rstate option **)
+
+let ring_step_owner k b s =
+  match s.r_ppc with
+  | RPCtorWait ->
+    (match s.r_trash with
+     | O -> None
+     | S t -> Some (r_set_sem s s.r_out t RPSpawn))
+  | RPSpawn ->
+    let s1 = { r_out = s.r_out; r_trash = s.r_trash; r_data = s.r_data;
+      r_size = s.r_size; r_pi = s.r_pi; r_ci = s.r_ci; r_cur = s.r_cur;
+      r_ppc = s.r_ppc; r_cpc = RCBegin; r_prog = s.r_prog; r_pend = s.r_pend;
+      r_file = s.r_file; r_wsizes = s.r_wsizes; r_flushes = s.r_flushes }
+    in
+    Some (r_next_write k b s1 s.r_data s.r_cur)
+  | RPFill ->
+    let k0 = sub b s.r_cur in
+    let data =
+      upd s.r_data s.r_pi
+        (app (firstn s.r_cur (s.r_data s.r_pi)) (firstn k0 s.r_pend))
+    in
+    let pend = skipn k0 s.r_pend in
+    if Nat.eqb b O
+    then Some
+           (r_set_p s data s.r_size s.r_pi b (r_loop_test b b pend) s.r_prog
+             pend)
+    else Some
+           (r_set_p s data (upd s.r_size s.r_pi b) (r_next k s.r_pi) b
+             (RPSpillPost false) s.r_prog pend)
+  | RPRest ->
+    let data =
+      upd s.r_data s.r_pi (app (firstn s.r_cur (s.r_data s.r_pi)) s.r_pend)
+    in
+    Some (r_next_write k b s data (add s.r_cur (length s.r_pend)))
+  | RPSpillPost d -> Some (r_set_sem s (S s.r_out) s.r_trash (RPSpillWait d))
+  | RPSpillWait d ->
+    (match s.r_trash with
+     | O -> None
+     | S t ->
+       let s1 = r_set_sem s s.r_out t s.r_ppc in
+       if d
+       then Some
+              (r_set_p s1 s.r_data (upd s.r_size s.r_pi O) (r_next k s.r_pi)
+                O RPPoisonPost [] [])
+       else Some
+              (r_set_p s1 s.r_data s.r_size s.r_pi O
+                (r_loop_test b O s.r_pend) s.r_prog s.r_pend))
+  | RPPoisonPost -> Some (r_set_sem s (S s.r_out) s.r_trash RPPoisonWait)
+  | RPPoisonWait ->
+    (match s.r_trash with
+     | O -> None
+     | S t -> Some (r_set_sem s s.r_out t RPJoin))
+  | RPJoin ->
+    (match s.r_cpc with
+     | RCDone -> Some (r_set_sem s s.r_out s.r_trash RPLeasePost)
+     | _ -> None)
+  | RPLeasePost -> Some (r_set_sem s s.r_out (S s.r_trash) RPDone)
+  | RPDone -> None
+
+(** val r_set_c :
+    rstate -> nat -> nat -> nat -> rcpc -> z list -> nat list -> nat -> rstate **)
+
+let r_set_c s out trash ci pc file ws fl =
+  { r_out = out; r_trash = trash; r_data = s.r_data; r_size = s.r_size;
+    r_pi = s.r_pi; r_ci = ci; r_cur = s.r_cur; r_ppc = s.r_ppc; r_cpc = pc;
+    r_prog = s.r_prog; r_pend = s.r_pend; r_file = file; r_wsizes = ws;
+    r_flushes = fl }
+
+(** val ring_step_writer : nat -> rstate -> rstate option **)
+
+let ring_step_writer k s =
+  match s.r_cpc with
+  | RCBegin ->
+    Some
+      (r_set_c s s.r_out s.r_trash s.r_ci RCWait s.r_file s.r_wsizes
+        s.r_flushes)
+  | RCWait ->
+    (match s.r_out with
+     | O -> None
+     | S o ->
+       let pc = if Nat.eqb (s.r_size s.r_ci) O then RCExitPost else RCWrite in
+       Some (r_set_c s o s.r_trash s.r_ci pc s.r_file s.r_wsizes s.r_flushes))
+  | RCWrite ->
+    let sz = s.r_size s.r_ci in
+    Some
+    (r_set_c s s.r_out s.r_trash (r_next k s.r_ci) RCPostTrash
+      (app s.r_file (firstn sz (s.r_data s.r_ci))) (sz :: s.r_wsizes)
+      s.r_flushes)
+  | RCPostTrash ->
+    Some
+      (r_set_c s s.r_out (S s.r_trash) s.r_ci RCWait s.r_file s.r_wsizes
+        s.r_flushes)
+  | RCExitPost ->
+    Some
+      (r_set_c s (S s.r_out) s.r_trash s.r_ci RCFlush s.r_file s.r_wsizes
+        s.r_flushes)
+  | RCFlush ->
+    Some
+      (r_set_c s s.r_out s.r_trash s.r_ci RCEnd s.r_file s.r_wsizes (S
+        s.r_flushes))
+  | RCEnd ->
+    Some
+      (r_set_c s s.r_out s.r_trash s.r_ci RCDone s.r_file s.r_wsizes
+        s.r_flushes)
+  | _ -> None
+
+(** val ring_step : nat -> nat -> rstate -> nat -> rstate option **)
+
+let ring_step k b s = function
+| O -> ring_step_owner k b s
+| S n0 -> (match n0 with
+           | O -> ring_step_writer k s
+           | S _ -> None)
+
+(** val ring_tag : rstate -> nat -> nat **)
+
+let ring_tag s = function
+| O ->
+  (match s.r_ppc with
+   | RPSpawn -> S O
+   | RPFill -> S (S O)
+   | RPRest -> S (S (S O))
+   | RPSpillPost _ -> S (S (S (S O)))
+   | RPPoisonPost -> S (S (S (S O)))
+   | RPJoin -> S (S (S (S (S O))))
+   | RPLeasePost -> S (S (S (S (S (S O)))))
+   | RPDone ->
+     S (S (S (S (S (S (S (S (S (S (S (S (S (S (S (S (S (S (S (S (S (S (S (S
+       (S (S (S (S (S (S (S (S (S (S (S (S (S (S (S (S (S (S (S (S (S (S (S
+       (S (S (S (S (S (S (S (S (S (S (S (S (S (S (S (S (S (S (S (S (S (S (S
+       (S (S (S (S (S (S (S (S (S (S (S (S (S (S (S (S (S (S (S (S (S (S (S
+       (S (S (S (S (S (S
+       O))))))))))))))))))))))))))))))))))))))))))))))))))))))))))))))))))))))))))))))))))))))))))))))))))
+   | _ -> O)
+| S _ ->
+  (match s.r_cpc with
+   | RCNotStarted ->
+     S (S (S (S (S (S (S (S (S (S (S (S (S (S (S (S (S (S (S (S (S (S (S (S
+       (S (S (S (S (S (S (S (S (S (S (S (S (S (S (S (S (S (S (S (S (S (S (S
+       (S (S (S (S (S (S (S (S (S (S (S (S (S (S (S (S (S (S (S (S (S (S (S
+       (S (S (S (S (S (S (S (S (S (S (S (S (S (S (S (S (S (S (S (S (S (S (S
+       (S (S (S (S (S
+       O)))))))))))))))))))))))))))))))))))))))))))))))))))))))))))))))))))))))))))))))))))))))))))))))))
+   | RCBegin -> S (S (S (S (S (S (S (S (S (S O)))))))))
+   | RCWait -> S (S (S (S (S (S (S (S (S (S (S O))))))))))
+   | RCWrite -> S (S (S (S (S (S (S (S (S (S (S (S O)))))))))))
+   | RCPostTrash -> S (S (S (S (S (S O)))))
+   | RCExitPost -> S (S (S (S O)))
+   | RCFlush -> S (S (S (S (S (S (S (S (S (S (S (S (S O))))))))))))
+   | RCEnd -> S (S (S (S (S (S (S (S (S (S (S (S (S (S O)))))))))))))
+   | RCDone ->
+     S (S (S (S (S (S (S (S (S (S (S (S (S (S (S (S (S (S (S (S (S (S (S (S
+       (S (S (S (S (S (S (S (S (S (S (S (S (S (S (S (S (S (S (S (S (S (S (S
+       (S (S (S (S (S (S (S (S (S (S (S (S (S (S (S (S (S (S (S (S (S (S (S
+       (S (S (S (S (S (S (S (S (S (S (S (S (S (S (S (S (S (S (S (S (S (S (S
+       (S (S (S (S (S (S
+       O)))))))))))))))))))))))))))))))))))))))))))))))))))))))))))))))))))))))))))))))))))))))))))))))))))
+
+(** val ring_finished : rstate -> nat -> bool **)
+
+let ring_finished s = function
+| O -> (match s.r_ppc with
+        | RPDone -> true
+        | _ -> false)
+| S n0 ->
+  (match n0 with
+   | O -> (match s.r_cpc with
+           | RCDone -> true
+           | _ -> false)
+   | S _ -> true)
+
+(** val ring_started : rstate -> nat -> bool **)
+
+let ring_started s = function
+| O -> true
+| S n0 ->
+  (match n0 with
+   | O -> (match s.r_cpc with
+           | RCNotStarted -> false
+           | _ -> true)
+   | S _ -> true)
